@@ -139,7 +139,7 @@ theorem C10_only_this_entry (m : M Prim) (start : Bytes) (v : Visit Attr) (s : E
     m s
 
 example :
-    let v : Visit Attr := ⟨⟨[[98]], 1, .dir [98] false true ⟨'d', 'd'⟩ [.leaf [99] .plain ⟨'f', 'f'⟩], false⟩, false, .never⟩
+    let v : Visit Attr := ⟨⟨[[98]], 1, .dir [98] false true { lty := 'd', sty := 'd' } [.leaf [99] .plain { lty := 'f', sty := 'f' }], false⟩, false, .never⟩
     (sem [116] v .delete ⟨{}, false, false, 0⟩).1 = false ∧
     (sem [116] v .delete ⟨{ deleted := [[116, 47, 98, 47, 99]] }, false, false, 0⟩).1 = true := by decide
 
